@@ -12,7 +12,18 @@ NAME = "Maven"
 
 # known classes (ids must be open entries of known/Cxx.jsonl to be counted instead of reported)
 F_C02_ZERO = "F-C02-11"     # 00 is not trimmed like 0
+F_C02_NULLDASH = "F-C02-15"  # a null element that opens a sub-list, directly before -SNAPSHOT
 F_C10_LEADSEP = "F-C10-2"  # canon drops the separator of the first element
+
+
+import re
+_NULL_DASH = re.compile(rb"^\d+(\.\d+)*(-?(ga|final|release)|-?[a-z_]+-?0+)-snapshot$")
+
+
+def null_before_snapshot(s):
+    """a release-equivalent qualifier, or a number 0 attached by '-' or directly, right before -SNAPSHOT: ComparableVersion
+    keeps an (emptied) nesting level there (1-final-SNAPSHOT > 1-SNAPSHOT), deps.dev trims it away"""
+    return _NULL_DASH.match(s.lower()) is not None
 
 
 # ----------------------------------------------------------------------------- generators
@@ -145,7 +156,8 @@ def domain_flags_wide(ctx, strings):
 
 def c02_strings(ctx, n):
     rng = ctx.rng
-    pool = set([b"1", b"1.0", b"1.0.0", b"1.1", b"1-alpha", b"1-a1", b"1-alpha-1", b"1.0-beta.2", b"1-rc", b"1-cr", b"1-SNAPSHOT",
+    pool = set([b"1-final-SNAPSHOT", b"1-SNAPSHOT", b"1-alpha-0-SNAPSHOT", b"1-alpha-SNAPSHOT", b"0", b"0-alpha", b"0.0-x", b"0.1",
+                b"1", b"1.0", b"1.0.0", b"1.1", b"1-alpha", b"1-a1", b"1-alpha-1", b"1.0-beta.2", b"1-rc", b"1-cr", b"1-SNAPSHOT",
                 b"1-sp", b"1-sp-1", b"1-foo", b"1-foo-1", b"1-ga", b"1-final", b"1-release", b"1-rc-SNAPSHOT", b"1.01", b"1.00",
                 b"1-alpha-01", b"1.0-m3", b"1.0-milestone-3", b"1.0-b2", b"1.10", b"1.2", b"2"])
     tries = 0
@@ -185,7 +197,11 @@ def c02(ctx):
             for (idx, a, b, g, sp), mo, mf in zip(hits, mod, modfix):
                 model_disagrees = (mo[0] == b"ok" and mg.sign(mo[1]) != sp)
                 fixed_agrees = (mf[0] == b"ok" and mg.sign(mf[1]) == sp)
-                known = F_C02_ZERO if (model_disagrees and fixed_agrees) else None
+                known = None
+                if model_disagrees and (null_before_snapshot(a) or null_before_snapshot(b)):
+                    known = F_C02_NULLDASH
+                elif model_disagrees and fixed_agrees:
+                    known = F_C02_ZERO
                 ctx.violations.append({"what": "Maven: ordering differs from ComparableVersion (Maven 3.6 algorithm)",
                                        "input": {"system": NAME, "a": a, "b": b}, "observed": g, "required": sp,
                                        "kind": "oracle", "known": known})
@@ -194,6 +210,27 @@ def c02(ctx):
             ref_pairs += [pairs[rng.randrange(len(pairs))] for _ in range(k)]
         if len(ctx.samples) < 3 and n:
             ctx.sample({"system": NAME, "a": strs[0], "b": strs[-1], "go": m[n - 1], "spec": spec[n - 1][1]})
+    # tie between strings and the structures of theorem C02_maven_partial
+    tie_in = mg.uniq([versions.maven_domain(rng, exclude_release_num=True) for _ in range(ctx.scale(1500, 20000))])
+    fl = domain_flags(ctx, tie_in)
+    tie_in = [s for s in tie_in if fl.get(s) and fl[s][3] and not null_before_snapshot(s)]
+    to = ctx.model("svm_maven_tie", [sx([s]) for s in tie_in])
+    nin = 0
+    for s, l in zip(tie_in, to):
+        v = parse_sx(l)
+        if v[0] == b"err":
+            ctx.divergence("svm_maven_tie", {"str": s, "what": "string of the C02 domain not accepted by the model"}, "ok", l)
+            continue
+        nin += v[0]
+        if not v[0]:
+            # versions 0 and 0-qualifier (ComparableVersion drops the leading zero) are outside the theorem's domain
+            if not v[2]:
+                ctx.divergence("svm_maven_tie", {"str": s, "what": "element list of a C02-domain string is outside the domain of C02_maven_partial"}, "in domain", l)
+            continue
+        if not v[1]:
+            ctx.divergence("svm_maven_tie", {"str": s, "what": "element list does not stand for the ComparableVersion item tree of the string"}, "equal", l)
+    ctx.count("maven:c02:tie:strings", len(tie_in))
+    ctx.count("maven:c02:tie:in-theorem-domain", nin)
     # the specification's own tie: Maven's ComparableVersion from the installed maven-artifact jar
     ref = mg.comparable_version_ref(ref_pairs)
     if ref is None:
